@@ -82,6 +82,14 @@ fn adjust(s: &mut TypeSpec, d: &mut Dna) -> bool {
                 v.disc = None;
             }
         }
+        // the upper half of u128: every discriminant is written 2^127 higher than the model's value; the first variant
+        // is explicit so that the shift is uniform and the order unchanged
+        if ok && r == "u128" && !with_c && d.chance(50) && ds.iter().all(|x| *x >= 0 && *x < (1i128 << 126)) {
+            if s.variants[0].disc.is_none() {
+                s.variants[0].disc = Some(ds[0]);
+            }
+            s.disc_shift = true;
+        }
     }
     true
 }
@@ -143,7 +151,11 @@ pub fn render(s: &TypeSpec) -> Option<Rendered> {
     // self-validation of the oracle's discriminant arithmetic where the language lets us observe it
     let all_unit = s.variants.iter().all(|v| v.shape == Shape::Unit);
     if all_unit {
-        o.push_str("    for (i, v) in vals().into_iter().enumerate() {\n        let d = disc(&v);\n        let real = v as i128;\n");
+        if s.disc_shift {
+            o.push_str("    for (i, v) in vals().into_iter().enumerate() {\n        let d = disc(&v);\n        let real = (v as u128).wrapping_sub(1u128 << 127) as i128;\n");
+        } else {
+            o.push_str("    for (i, v) in vals().into_iter().enumerate() {\n        let d = disc(&v);\n        let real = v as i128;\n");
+        }
         o.push_str("        if d != real { println!(\"F {} HARNESS oracle discriminant {} != `as` cast {} for value {}\", o.ty, d, real, i); o.fails += 1; }\n    }\n");
     }
     o.push_str("}\n");
@@ -173,6 +185,9 @@ pub fn render(s: &TypeSpec) -> Option<Rendered> {
     }
     if s.variants.iter().any(|v| v.disc.is_some()) {
         classes.push("explicit_discriminants".to_string());
+    }
+    if s.disc_shift {
+        classes.push("discriminants_above_i128_max".to_string());
     }
     if nv == 1 {
         classes.push("single_variant".to_string());
